@@ -490,8 +490,11 @@ def explore(ctx):
 
     tc = table_cases(ctx.thorough)
     cc = cmif_cases(ctx.thorough)
-    for i in range(0, len(tc), max(1, len(tc) // 4)):
-        tc[i]["sample"] = True
+    seen_routes = set()
+    for c in tc:                       # written-out samples: first table with all three symbols per route (at most 5)
+        if c["route"] not in seen_routes and set(c["cells"]) == set(SYM) and not c["hide"] and len(seen_routes) < 5:
+            seen_routes.add(c["route"])
+            c["sample"] = True
     cc[len(cc) // 3]["sample"] = True
     by = {}
     for c in tc:
